@@ -31,7 +31,8 @@ REQUIRED = [
     'firstN_additive', 'firstN_additive_merged', 'firstN_flat_image', 'firstN_empty', 'firstN_same_key',
     'pyTake_nonneg', 'firstN_weight_conserved', 'firstN_is_dict', 'firstN_shared_rank_flattened',
     'covers_allRankedCandidates', 'positional_sum', 'positional_additive', 'positional_additive_merged',
-    'rankedToPositional_additive', 'rankedToPositional_keys', 'posImage_eq_sum', 'borda_score_at', 'borda_rejects',
+    'rankedToPositional_additive', 'rankedToPositional_keys', 'posImage_eq_sum', 'selectPadded_eq',
+    'selectPadded_prefix', 'sequence_scores_eq', 'borda_scores_eq', 'borda_score_at', 'borda_rejects',
     'dowdall_score_at', 'geometric_score_at', 'modifiedBorda_score_at', 'fixedTop_score_at', 'sequence_score_at',
     'positional_borda_rejects', 'condorcet_sum', 'condorcet_additive', 'condorcet_additive_merged',
     'rankedToCondorcet_additive_nobottom', 'rankedToCondorcet_additive', 'condorcet_single',
@@ -54,8 +55,15 @@ REQUIRED = [
     'groupByParty_additive_disjoint', 'rounded_image', 'rounded_value', 'rounded_with_image', 'rounded_with_value',
     'rounded_with_halfUp', 'rounded_additive_disjoint', 'rounded_not_additive_witness', 'chain_nil', 'chain_cons',
     'chain_append', 'conv_chain', 'approvalUnsplit_sum', 'chain_ranked_approval_simple',
-    'chain_ranked_approval_simple_additive', 'chain_two_additive', 'chain_score_approval_simple_additive',
-    'subsettedNested_image', 'invertedApproval_awf', 'invertedApproval_top_sum', 'invertedApproval_top_additive',
+    'chain_ranked_approval_simple_additive', 'chain_two_additive', 'linearD_firstPreference', 'linearD_firstN',
+    'linearD_presenceCounts', 'linearD_rankedToApproval', 'linearD_condorcet', 'linearD_scoreToRanked',
+    'linearD_scoreToApproval', 'linearD_subsetted', 'linearD_approvalUnsplit', 'linearD_invertedSimple',
+    'chain_additive', 'chain_linear', 'chain_score_ranked_approval_simple_additive',
+    'chain_score_ranked_condorcet_additive', 'chain_presence_inverted_additive',
+    'chain_score_approval_simple_additive', 'subsettedNested_image', 'subsettedNested_additive_merged',
+    'subsettedDeep_image', 'subsettedDeep_sum', 'mergeN_is_sum', 'subsettedDeep_additive',
+    'subsettedDeep_additive_merged', 'invertedApproval_awf', 'invertedApproval_top_sum',
+    'invertedApproval_top_additive',
 ]
 TRUSTED = ['Python set/dict iteration order of converter outputs is not observable: outputs compare as maps, '
            'frozensets as sorted id lists']
@@ -70,19 +78,19 @@ SUBSETTERS = ['simple', 'approval', 'ranked', 'score']
 ROUND_METHODS = ['ROUND_HALF_UP', 'ROUND_HALF_DOWN', 'ROUND_HALF_EVEN', 'ROUND_DOWN', 'ROUND_UP', 'ROUND_CEILING', 'ROUND_FLOOR',
                  'ROUND_05UP']
 # converters of the property's quantifier that have no Lean model (the oracle still covers them)
-UNMODELLED = ['SubsettedVotes with depth > 1']
+UNMODELLED = []
 
 REQUIRED_COUNTERS = (['conv:' + c for c in CONVERTERS] + ['scorer:' + s for s in SCORERS]
                      + ['subsetter:' + s for s in SUBSETTERS]
                      + ['split', 'unsplit', 'condorcet_bottom', 'condorcet_nobottom', 'unscored_value',
                         'shared_rank', 'truncated', 'empty_ballot', 'overlap_AB', 'shared_image',
                         'fraction_weight', 'same_universe', 'rounded_disjoint', 'rounded_overlap',
-                        'borda_too_many_ranks', 'duplicate_candidate', 'util', 'decimal_weight']
+                        'borda_too_many_ranks', 'duplicate_candidate', 'util', 'decimal_weight', 'subset_depth:2', 'subset_depth:3']
                      + ['round:' + m for m in ROUND_METHODS])
 RULE = ('2-5 candidates (5-8 in the `big` share) with multi-character names; ranked ballots with truncation, shared ranks (incl. one-element and empty '
         'sets), repeated candidates and the empty ballot; approval and score ballots incl. empty ones; weights from small integers, '
         'zero, Fractions and (rarely) negatives; each profile of 1-7 (big: 6-15) ballots is split into A and B with ballots that occur in both '
-        'halves and distinct ballots that share an image; every converter of the quantifier with every rank scorer / subsetter / mode, '
+        'halves and distinct ballots that share an image; every converter of the quantifier with every rank scorer / subsetter / mode / rounding method, SubsettedVotes at depth 0-3, '
         'and chains of two or three converters. Non-trivial = at least two ballots in A+B and a non-error result; distinct by request.')
 NOT_VERIFIED = ['set/dict iteration order of outputs (outputs compare as maps; frozensets are canonical sorted id lists)',
                 'Decimal division of RoundedVotes for Fractions is taken as exact (denominators in the generator are small)',
@@ -91,8 +99,10 @@ NOT_VERIFIED = ['set/dict iteration order of outputs (outputs compare as maps; f
                 'unscored_value, InvertedApprovalVotes): additivity is proved over a fixed universe and, for the converter as called, '
                 'under the hypothesis that the halves name the same candidates',
                 'GroupVotesByParty and RoundedVotes are not additive as functions: proved per-key image and additivity across disjoint keys',
-                'Chain: composition law proved in general (SumOfImages.comp) and instantiated for two chains; other chains by correspondence',
-                'nested SubsettedVotes(depth=1): per-district image proved, additivity by correspondence/oracle only'] + \
+                'Chain: additivity proved for every typed chain whose links are linear on dicts (sum-of-images converters over a fixed '
+                'universe, InvertedSimpleVotes) by induction over the chain (chain_additive); chains through an Except-valued link '
+                '(positional, split approval, party mapper), InvertedApprovalVotes, VoteTotals or RoundedVotes rest on correspondence + oracle',
+                'select_padded is hand-modelled (selectPadded_eq states it as take ++ replicate; the translator does not cover it)'] + \
                ['UNMODELLED: ' + u for u in UNMODELLED]
 EXHAUSTIVE = {'thorough': False}     # small-scope enumeration is added in the thorough tier, the random part stays
 
@@ -208,7 +218,15 @@ def key_py(kind, k, ctx):
     raise ValueError(kind)
 
 
-def prof_py(kind, prof, ctx):
+def deep_py(t, depth, ctx):
+    if depth == 0:
+        return {ctx.cand(c): py_num(w, ctx.dec) for c, w in t}
+    return {dname(d): deep_py(c, depth - 1, ctx) for d, c in t}
+
+
+def prof_py(kind, prof, ctx, depth=0):
+    if kind == 'deep':
+        return deep_py(prof, depth, ctx)
     if kind == 'nested':
         return {dname(d): {ctx.cand(c): py_num(w, ctx.dec) for c, w in dv} for d, dv in prof}
     return {key_py(kind, k, ctx): py_num(w, ctx.dec) for k, w in prof}
@@ -381,7 +399,7 @@ def impl(case):
         return {'err': err_name(e)}
 
     def one(prof):
-        votes = prof_py(case['kind'], prof, ctx)
+        votes = prof_py(case['kind'], prof, ctx, case.get('depth', 0))
         return guarded(lambda: enc_dict(conv.convert(votes), ctx))
     return {'A': one(case['A']), 'B': one(case['B']), 'AB': one(case['AB']),
             'singles': [one(s) for s in case['singles']]}
@@ -411,7 +429,15 @@ def h_key(kind, k):
     raise ValueError(kind)
 
 
-def h_prof(kind, prof):
+def h_deep(t, depth):
+    if depth == 0:
+        return [(c, num(w)) for c, w in t]
+    return [(d, h_deep(c, depth - 1)) for d, c in t]
+
+
+def h_prof(kind, prof, depth=0):
+    if kind == 'deep':
+        return h_deep(prof, depth)
     if kind == 'nested':
         return [(d, [(c, num(w)) for c, w in dv]) for d, dv in prof]
     return [(h_key(kind, k), num(w)) for k, w in prof]
@@ -648,6 +674,15 @@ def ref_convert(spec, kind, prof):
     if c == 'SubsettedVotes' and spec['depth'] == 1:
         S = set(spec['subset'])
         return 'nested', {d: {k: w for k, w in dv if k in S} for d, dv in prof}
+    if c == 'SubsettedVotes' and spec['depth'] > 1:
+        S = set(spec['subset'])
+
+        def rec(t, depth):
+            # documented: the nesting is kept, the innermost vote dictionaries are subsetted
+            if depth == 0:
+                return {k: w for k, w in t if k in S}
+            return {d: rec(ch, depth - 1) for d, ch in t}
+        return 'deep', rec(prof, spec['depth'])
     if c == 'RoundedVotes':
         return kind, {k: ref_round(w, spec['decimals'], spec.get('round_method', 'ROUND_HALF_UP')) for k, w in prof}
     if c == 'GroupVotesByParty':
@@ -723,7 +758,7 @@ def total(o):
 def oracle_profile(spec, kind, prof, obs, where, single):
     """clauses violated by one conversion"""
     out = []
-    hp = h_prof(kind, prof)
+    hp = h_prof(kind, prof, spec.get('depth', 0) if kind == 'deep' else 0)
     try:
         okind, exp = ref_convert(spec, kind, hp)
         rej = None
@@ -770,7 +805,7 @@ def _nested_set_keys(got):
 
 def same_universe(case):
     kind = case['kind']
-    if kind == 'nested':
+    if kind in ('nested', 'deep'):
         return True
     return universe(kind, h_prof(kind, case['A'])) == universe(kind, h_prof(kind, case['B']))
 
@@ -871,9 +906,6 @@ def model_line(case):
     c = strip_case(case)
     if case['op'] == 'util':
         return c
-    for s in _flat(case['conv']):
-        if s['c'] == 'SubsettedVotes' and s['depth'] > 1:
-            return None
     return c
 
 
@@ -887,8 +919,9 @@ def describe(case):
     if case['op'] == 'util':
         return f"util.all_rankings({prof_py('ranked', case['votes'], Ctx({'c': 'none'}))!r})"
     ctx = Ctx(case['conv'], bool(case.get('dec')))
-    return (f"{json.dumps(case['conv'])}.convert on A={prof_py(case['kind'], case['A'], ctx)!r}, "
-            f"B={prof_py(case['kind'], case['B'], ctx)!r}, A+B={prof_py(case['kind'], case['AB'], ctx)!r}")
+    dp = case.get('depth', 0)
+    return (f"{json.dumps(case['conv'])}.convert on A={prof_py(case['kind'], case['A'], ctx, dp)!r}, "
+            f"B={prof_py(case['kind'], case['B'], ctx, dp)!r}, A+B={prof_py(case['kind'], case['AB'], ctx, dp)!r}")
 
 
 # ------------------------------------------------------------------------------------------------
@@ -916,6 +949,35 @@ def merge_nested(a, b):
     return [[dist, d[dist]] for dist in order]
 
 
+def merge_deep(a, b, depth):
+    """key-wise recursive dict sum of two nested dictionaries of the given depth"""
+    if depth == 0:
+        return merge(a, b)
+    d, order = {}, []
+    for k, ch in a + b:
+        if k not in d:
+            d[k] = [] if depth > 1 else []
+            order.append(k)
+        d[k] = merge_deep(d[k], ch, depth - 1)
+    return [[k, d[k]] for k in order]
+
+
+def deep_leaves(t, depth, path=()):
+    if depth == 0:
+        for kv in t:
+            yield path, kv
+    else:
+        for k, ch in t:
+            yield from deep_leaves(ch, depth - 1, path + (k,))
+
+
+def deep_single(path, kv):
+    t = [kv]
+    for k in reversed(path):
+        t = [[k, t]]
+    return t
+
+
 def dedupe(prof):
     return merge(prof, [])
 
@@ -926,7 +988,12 @@ DEC_OK = ('RankedToFirstPreference', 'RankedToFirstNPreferences', 'RankedToPrese
 
 
 def finish(conv, kind, A, B, tags, dec=False):
-    if kind == 'nested':
+    depth = conv.get('depth', 0) if kind == 'deep' else 0
+    if kind == 'deep':
+        A, B = merge_deep([], A, depth), merge_deep([], B, depth)
+        AB = merge_deep(A, B, depth)
+        singles = [deep_single(path, kv) for path, kv in deep_leaves(AB, depth)][:4]
+    elif kind == 'nested':
         A, B = merge_nested(A, []), merge_nested(B, [])
         AB = merge_nested(A, B)
         singles = [[[d, [kv]]] for d, dv in AB for kv in dv][:4]
@@ -936,8 +1003,14 @@ def finish(conv, kind, A, B, tags, dec=False):
         singles = [[[k, '1']] for k, _ in AB][:6]
     case = {'op': 'convert', 'conv': conv, 'kind': kind, 'A': A, 'B': B, 'AB': AB, 'singles': singles,
             '_tags': list(tags)}
+    if kind == 'deep':
+        case['depth'] = depth
+        case['_tags'].append(f'subset_depth:{depth}')
     if dec and conv['c'] in DEC_OK or (dec and conv['c'] == 'ApprovalToSimpleVotes' and not conv['split']):
-        ws = [w for _, w in A + B + AB] if kind != 'nested' else [w for _, dv in A + B + AB for _, w in dv]
+        if kind == 'deep':
+            ws = [kv[1] for x in (A, B, AB) for _, kv in deep_leaves(x, depth)]
+        else:
+            ws = [w for _, w in A + B + AB] if kind != 'nested' else [w for _, dv in A + B + AB for _, w in dv]
         if all(Fraction(w).denominator == 1 or _dec_ok(Fraction(w)) for w in ws) and \
                 any(Fraction(w).denominator != 1 for w in ws):
             case['dec'] = True
@@ -966,7 +1039,7 @@ def tag_case(case):
         tags.add('overlap_AB')
     if spec['c'] == 'RoundedVotes':
         tags.add('rounded_overlap' if ka & kb else 'rounded_disjoint')
-    if kind != 'nested':
+    if kind not in ('nested', 'deep'):
         if any(Fraction(w).denominator != 1 for k, w in case['AB']):
             tags.add('fraction_weight')
         if any(Fraction(w) < 0 for k, w in case['AB']):
@@ -988,7 +1061,7 @@ def tag_case(case):
     if same_universe(case) and any(s['c'] in UNIVERSE_DEPENDENT for s in _flat(spec)):
         tags.add('same_universe')
     # two distinct ballots with the same one-item image
-    if spec['c'] in ONE_ITEM and kind != 'nested' and not spec.get('depth'):
+    if spec['c'] in ONE_ITEM and kind not in ('nested', 'deep') and not spec.get('depth'):
         hp = h_prof(kind, case['AB'])
         U = universe(kind, hp)
         seen = set()
@@ -1002,7 +1075,7 @@ def tag_case(case):
                     seen.add(kk)
         except Reject:
             pass
-    elif kind != 'nested' and len(case['AB']) >= 2:
+    elif kind not in ('nested', 'deep') and len(case['AB']) >= 2:
         hp = h_prof(kind, case['AB'])
         U = universe(kind, hp)
         try:
@@ -1168,8 +1241,9 @@ def _rnd_spec(rng, name, m):
     if name == 'SubsettedVotes':
         k = rng.choice(SUBSETTERS)
         sub = rng.sample(range(m + 1), rng.randint(0, m))
-        if rng.random() < 0.15 and k == 'simple':
-            return {'c': name, 'subsetter': k, 'subset': sub, 'depth': 1}, 'nested'
+        if rng.random() < 0.3 and k == 'simple':
+            dp = rng.choice([1, 1, 2, 2, 3])
+            return {'c': name, 'subsetter': k, 'subset': sub, 'depth': dp}, 'nested' if dp == 1 else 'deep'
         return {'c': name, 'subsetter': k, 'subset': sub, 'depth': 0}, {'simple': 'simple', 'approval': 'approval',
                                                                          'ranked': 'ranked', 'score': 'score'}[k]
     if name == 'RoundedVotes':
@@ -1235,6 +1309,13 @@ def rnd_ballots(rng, kind, m, n):
     return out
 
 
+def rnd_deep(rng, m, depth):
+    if depth == 0:
+        cs = rng.sample(range(m), rng.randint(0, m))
+        return [[c, rnd_weight(rng)] for c in cs]
+    return [[d, rnd_deep(rng, m, depth - 1)] for d in range(rng.randint(1, 3)) if rng.random() < 0.75]
+
+
 def rnd_nested(rng, m):
     nd = rng.randint(1, 3)
     A, B = [], []
@@ -1253,6 +1334,9 @@ def gen_case(rng, name=None, tags=(), big=False):
         spec, kind = rnd_chain(rng, m)
     else:
         spec, kind = rnd_spec(rng, name, m)
+    if kind == 'deep':
+        return finish(spec, kind, rnd_deep(rng, m, spec['depth']), rnd_deep(rng, m, spec['depth']), tags,
+                      dec=rng.random() < 0.3)
     if kind == 'nested':
         A, B = rnd_nested(rng, m)
         return finish(spec, kind, A, B, tags, dec=rng.random() < 0.3)
@@ -1343,6 +1427,11 @@ def directed(rng):
                  [[[0, 1], '2'], [[{'set': [0, 2]}], '1']], [[[1, 0], '3'], [[0, 1], '1']], ['directed'])
     yield finish({'c': 'RankedToApprovalVotes'}, 'ranked',
                  [[[0, 1], '2'], [[{'set': [0, 1]}], '1']], [[[1, 0], '3'], [[0, 1], '1']], ['directed'])
+    yield finish({'c': 'SubsettedVotes', 'subsetter': 'simple', 'subset': [0, 2], 'depth': 2}, 'deep',
+                 [[0, [[0, [[0, '2'], [1, '1']]], [1, [[2, '1/2']]]]], [1, [[0, [[1, '4']]]]]],
+                 [[0, [[0, [[0, '3'], [2, '5']]]]], [2, [[1, [[2, '1']]]]], [1, []]], ['directed'])
+    yield finish({'c': 'SubsettedVotes', 'subsetter': 'simple', 'subset': [1], 'depth': 3}, 'deep',
+                 [[0, [[0, [[0, [[0, '2'], [1, '1']]]]]]]], [[0, [[0, [[0, [[1, '3']]], [1, [[1, '1/3']]]]]]]], ['directed'])
     yield finish({'c': 'RoundedVotes', 'decimals': 1}, 'simple', [[0, '5/4'], [1, '1/3']], [[2, '-5/4'], [3, '7']], ['directed'])
     yield finish({'c': 'RoundedVotes', 'decimals': 0}, 'simple', [[0, '1/2'], [1, '1/3']], [[0, '1/2'], [3, '7']], ['directed'])
     for meth in ROUND_METHODS:
@@ -1364,6 +1453,17 @@ def generate(rng, tier):
         yield gen_case(rng)
     for _ in range(60 if tier == 'quick' else 4000):
         yield gen_case(rng, tags=['big'], big=True)
+    for _ in range(80 if tier == 'quick' else 3000):     # nested dictionaries of depth 1-3
+        m = rng.randint(2, 5)
+        dp = rng.choice([1, 2, 2, 3])
+        spec = {'c': 'SubsettedVotes', 'subsetter': 'simple', 'subset': rng.sample(range(m + 1), rng.randint(0, m)), 'depth': dp}
+        if rng.random() < 0.5:
+            spec['defaults'] = True
+        if dp == 1:
+            A, B = rnd_nested(rng, m)
+            yield finish(spec, 'nested', A, B, ['deep'], dec=rng.random() < 0.3)
+        else:
+            yield finish(spec, 'deep', rnd_deep(rng, m, dp), rnd_deep(rng, m, dp), ['deep'], dec=rng.random() < 0.3)
     for _ in range(40 if tier == 'quick' else 2000):
         m = rng.randint(2, 4)
         bs = []
